@@ -463,6 +463,9 @@ def main(tier):
     check_rfc_tables(rep)
     check_rfc_copies(rep)
     check_cmp_units(rep)
+    import c18, llir
+    Ku, _d = mirror.c_values('default', ['huff_codes.h', 'bitbuf2.h', 'igzip_lib.h'], [(n, n) for n in ('MAX_BITBUF_BIT_WRITE', 'DIST_LEN', 'LIT_LEN')], 'c01_useable')
+    c18.check_useable_schedule(rep, llir.library('default'), Ku)
     for c in CONFIGS:
         lay = hufftables_layout(c)
         unpack = unpack_consts(c)
